@@ -169,6 +169,9 @@ def check_read_conf(ctx, rng):
                         text = 'transport=tcp://decoy:1\npib=pib-sqlite3:/decoy\ntpm=tpm-file:/decoy\n'
                     with open(c, 'w') as f:
                         f.write(text)
+                    # contents change from configuration to configuration while path, size class and timestamps may not
+                    # (files installed with preserved timestamps): the result must depend on the contents only
+                    os.utime(c, (1_600_000_000, 1_600_000_000))
                     files.append((c, text))
                 else:
                     files.append((c, None))
